@@ -2634,6 +2634,20 @@ pub fn ensure_reporter_api(cancelable: bool) {
     if *g == Some(cancelable) {
         return;
     }
+    // a process may install its reporter more than once, with another configuration each time:
+    // on the odd routes the first installation of the process is preceded by one with the
+    // opposite setting (what counts is the configuration installed last)
+    if g.is_none() && CONFIG_ROUTE.load(Ordering::SeqCst) % 2 == 1 {
+        let before = REPORT_CALLS.load(Ordering::SeqCst);
+        fastrace::set_reporter(SinkReporter, Config::default().report_interval(std::time::Duration::from_secs(3600)).cancelable(!cancelable));
+        if cfg!(feature = "enable") {
+            let start = std::time::Instant::now();
+            while REPORT_CALLS.load(Ordering::SeqCst) == before && start.elapsed() < std::time::Duration::from_secs(20) {
+                std::thread::sleep(std::time::Duration::from_micros(200));
+            }
+        }
+        fastrace::flush();
+    }
     let before = REPORT_CALLS.load(Ordering::SeqCst);
     // the configuration is built along every route the API offers: `cancelable()` or its
     // deprecated spelling, with or without the deprecated (documented as no-op) span limit, options
